@@ -527,6 +527,8 @@ theorem beginPre_sim (a : Actor) (s : St) (hph : a.phase = .cell) (hinit : s.sta
 theorem startInstant_sim (a : Actor) (s : St) (supOk : Bool) (hph : a.phase = .cell)
     (hinit : s.stage = .init) (hx : Aux a s) : Sim next Inv s (startInstant a supOk) := by
   unfold startInstant
+  split
+  · exact failSpawn_sim _ _ _
   · simp only []
     split
     · split
